@@ -20,7 +20,7 @@ func (t *Tree) parseTag() (Node, error) {
 		return parseExtends(t, name.Pos)
 	case "block":
 		return parseBlock(t, name.Pos)
-	case "if", "elseif":
+	case "if":
 		return parseIf(t, name.Pos)
 	case "for":
 		return parseFor(t, name.Pos)
@@ -211,8 +211,9 @@ func parseIfBody(t *Tree, start Pos) (body *BodyNode, els *BodyNode, err error) 
 					return nil, nil, err
 				}
 			case "elseif":
-				t.backup()
-				in, err := t.parseTag()
+				// An elseif is an if in the else branch; anywhere else the word
+				// is not a tag (parseTag no longer accepts it).
+				in, err := parseIf(t, tok.Pos)
 				if err != nil {
 					return nil, nil, err
 				}
@@ -279,8 +280,8 @@ func parseFor(t *Tree, start Pos) (*ForNode, error) {
 		}
 	}
 	tok := t.nextNonSpace()
-	if tok.tokenType != tokenName && tok.value != "in" {
-		return nil, newUnexpectedTokenError(tok)
+	if tok.tokenType != tokenOperator || tok.value != "in" {
+		return nil, newUnexpectedValueError(tok, "in")
 	}
 	expr, err := t.parseExpr()
 	if err != nil {
